@@ -35,6 +35,30 @@ pub fn dispatch(ctx: &Ctx, rep: &mut Report) -> bool {
         "C04" => bytecode::c04(ctx, rep),
         "C17" => bytecode::c17(ctx, rep),
         "selftest" => common::selftest(ctx, rep),
+        "stress-time" => {
+            // development aid: where does the time go on the stress shapes
+            for (name, src) in common::stress_sources() {
+                let ast = match super::real::parse(&src) { Ok(a) => a, Err(_) => continue };
+                let t0 = std::time::Instant::now();
+                let out = super::refsem::run(&ast, common::big_limits());
+                let t1 = std::time::Instant::now();
+                let pl = super::real::pipeline_from_ast(&ast, common::cap_for(&out), true);
+                let t2 = std::time::Instant::now();
+                let mut rng = ctx.rng("st", 1);
+                let prog = super::altcc::compile(&ast, &mut rng);
+                let mut t4 = t2; let mut t5 = t2;
+                let t3 = std::time::Instant::now();
+                if let Ok(prog) = &prog {
+                    let vo = super::refvm::run_prog(prog, common::cap_for(&out) * 2);
+                    t4 = std::time::Instant::now();
+                    let real = super::real::load(&super::bcfmt::write(prog));
+                    if let Ok(real) = real { let _ = super::lockstep::run(&real, prog, common::cap_for(&out) * 2); }
+                    t5 = std::time::Instant::now();
+                    let _ = vo;
+                }
+                println!("{:28} refsem {:6} ms steps {:8} | real {:6} ms ok={} | altcc {:5} ms | refvm {:6} ms | lockstep {:6} ms", name, (t1 - t0).as_millis(), out.steps, (t2 - t1).as_millis(), pl.run.as_ref().map(|r| r.ok).unwrap_or(false), (t3 - t2).as_millis(), (t4 - t3).as_millis(), (t5 - t4).as_millis());
+            }
+        }
         "stress-dump" => {
             for (i, (name, src)) in common::stress_sources().into_iter().enumerate() {
                 let _ = std::fs::write(ctx.work.join(format!("stress-{:02}-{}.fml", i, name)), src);
